@@ -84,26 +84,12 @@ type legs struct{ text, json, cross, ownText, ownJSON bool }
 
 var allLegs = legs{true, true, true, true, true}
 
-// check runs the selected legs; panics inside cedar-go are findings too.
-func check(c *Case, l legs) (out []finding) {
-	cur := "setup"
-	defer func() {
-		if r := recover(); r != nil {
-			out = append(out, finding{cur + "/panic", fmt.Sprintf("panic: %v", r)})
-		}
-	}()
-	a := sch.ToAST(c.Schema)
-	s0 := schema.NewSchemaFromAST(a)
-	cur = "resolve"
-	want, wantErr := resolveCanon(s0)
-	textOK, _ := sch.TextExpressible(c.Schema)
-	jsonOK := !(ev.KnownOpen("C17", "empty-enum-json") && hasEmptyEnum(c.Schema))
-	// cedar-go's text marshaller is excluded for schemas matching an open finding; the own text renderer still runs
-	marshalTextOK := textOK && !(ev.KnownOpen("C17", "builtin-shadowed-text") && sch.ShadowedBuiltinUse(c.Schema))
-
+// checkObject runs the text / JSON / cross legs on a schema object however it was obtained (built from the harness IR,
+// or parsed from fuzzed bytes). want / wantErr: its canonical resolution.
+func checkObject(s0 *schema.Schema, want string, wantErr error, l legs, marshalTextOK, jsonOK bool, cur *string) (out []finding) {
 	var sText, sJSON *schema.Schema
 	if marshalTextOK && (l.text || l.cross) {
-		cur = "text"
+		*cur = "text"
 		t1, err := s0.MarshalCedar()
 		if err != nil {
 			return append(out, finding{"text/marshal", "MarshalCedar: " + err.Error()})
@@ -126,7 +112,7 @@ func check(c *Case, l legs) (out []finding) {
 		}
 	}
 	if jsonOK && (l.json || l.cross) {
-		cur = "json"
+		*cur = "json"
 		j1, err := s0.MarshalJSON()
 		if err != nil {
 			return append(out, finding{"json/marshal", "MarshalJSON: " + err.Error()})
@@ -150,7 +136,7 @@ func check(c *Case, l legs) (out []finding) {
 	}
 	if l.cross && jsonOK && marshalTextOK {
 		if sText != nil {
-			cur = "cross/text-json"
+			*cur = "cross/text-json"
 			j, err := sText.MarshalJSON()
 			var s3 schema.Schema
 			if err == nil {
@@ -166,7 +152,7 @@ func check(c *Case, l legs) (out []finding) {
 			}
 		}
 		if sJSON != nil {
-			cur = "cross/json-text"
+			*cur = "cross/json-text"
 			tx, err := sJSON.MarshalCedar()
 			var s4 schema.Schema
 			if err == nil {
@@ -182,6 +168,27 @@ func check(c *Case, l legs) (out []finding) {
 			}
 		}
 	}
+	return out
+}
+
+// check runs the selected legs; panics inside cedar-go are findings too.
+func check(c *Case, l legs) (out []finding) {
+	cur := "setup"
+	defer func() {
+		if r := recover(); r != nil {
+			out = append(out, finding{cur + "/panic", fmt.Sprintf("panic: %v", r)})
+		}
+	}()
+	a := sch.ToAST(c.Schema)
+	s0 := schema.NewSchemaFromAST(a)
+	cur = "resolve"
+	want, wantErr := resolveCanon(s0)
+	textOK, _ := sch.TextExpressible(c.Schema)
+	jsonOK := !(ev.KnownOpen("C17", "empty-enum-json") && hasEmptyEnum(c.Schema))
+	// cedar-go's text marshaller is excluded for schemas matching an open finding; the own text renderer still runs
+	marshalTextOK := textOK && !(ev.KnownOpen("C17", "builtin-shadowed-text") && sch.ShadowedBuiltinUse(c.Schema))
+
+	out = append(out, checkObject(s0, want, wantErr, l, marshalTextOK, jsonOK, &cur)...)
 	if l.ownText && textOK {
 		cur = "own-text"
 		for _, style := range []uint64{0, c.Style} {
@@ -441,7 +448,7 @@ func TestReplay(t *testing.T) {
 	if err != nil {
 		t.Fatal(err)
 	}
-	if ev.ReplayFuzz(t, rf, fuzzProps, nil) {
+	if ev.ReplayFuzz(t, rf, fuzzProps, fuzzRaw) {
 		return
 	}
 	var c Case
